@@ -170,7 +170,7 @@ func c11Units(tier string, seed int64) []Unit {
 		for _, size := range []string{"steps", "one", "empty"} {
 			for _, kind := range []Beh{BFatalA, BErrorf, BFailNowC, BPanicStr, BCleanupErrorf, BCleanupFatal, BErrorfThenFatalA, BFail} {
 				k++
-				c06RunAs(c, c06Scen{"TestC11Replay", []string{"plain line"}, size, kind}, uint64(seed)*17+uint64(k), "C11")
+				c06RunAs(c, c06Scen{name: "TestC11Replay", chunks: []string{"plain line"}, size: size, kind: kind}, uint64(seed)*17+uint64(k), "C11")
 			}
 		}
 	}})
